@@ -98,6 +98,11 @@ func (cp *Checkpoint) WALSeq(fs storage.FileSystem) iter.Seq2[wal.Entry, error] 
 
 // Determine whether the checkpoint references the provided table file.
 func (cp *Checkpoint) IncludesTable(uri string) bool {
+	// Only checkpoints loaded from a document carry the URI index; a checkpoint
+	// taken by this instance answers from its level list.
+	if cp.tableURIset == nil {
+		return cp.Levels.IncludesTable(uri)
+	}
 	_, ok := cp.tableURIset[uri]
 	return ok
 }
